@@ -20,6 +20,7 @@ NoConn == [outcome |-> "none", up |-> FALSE, upT |-> 0, openSeen |-> FALSE, isRe
 
 MInit ==
   [run |-> -1, active |-> FALSE, I |-> 0, T |-> 0, R |-> 0, cbs |-> {}, ext |-> FALSE, payload |-> <<>>,
+   skipUtf8 |-> FALSE,          \* skip_utf8_validation: text is not validated (and is handed over undecoded)
    refuse |-> FALSE,            \* inconsistent settings: the run must be refused before connecting
    conns |-> <<>>, firstCid |-> 0,
    nclose |-> 0, errors |-> 0, cbErrorsExpected |-> 0, lastCb |-> "none",
@@ -39,7 +40,7 @@ Cur(s) == Len(s.conns)           \* index (cid + 1) of the latest connection
 MBegin(s, e) ==
   MRes([MInit EXCEPT !.run = e.run, !.active = TRUE, !.I = e.interval, !.T = e.timeout, !.R = e.reconnect,
                     !.cbs = {e.cbs[i] : i \in 1..Len(e.cbs)}, !.ext = (e.dispatcher = "ext"), !.payload = e.payload,
-                    !.jitter = e.jitter,
+                    !.jitter = e.jitter, !.skipUtf8 = ("skipUtf8" \in DOMAIN e /\ e.skipUtf8),
                     !.refuse = (e.timeoutGiven /\ e.timeout <= 0) \/ e.interval < 0
                                \/ (e.timeout > 0 /\ e.interval > 0 /\ e.interval <= e.timeout),
                     !.conns = s.conns, !.firstCid = Len(s.conns) + 1, !.log = s.log], TRUE, "")
@@ -72,7 +73,7 @@ MSrv(s, e) ==
   IF k < 1 \/ k > Len(s.conns) THEN MFail(s, "harness.srv_for_unknown_connection")
   ELSE IF c.ending # "none" THEN MRes(s, TRUE, "")      \* nothing after the end of the conversation is owed
   ELSE
-    CASE e.kind = "msg" ->
+    CASE e.kind = "msg" \/ (e.kind = "badutf8" /\ s.skipUtf8) ->
            MRes([s EXCEPT !.conns[k].pending = @ \o
                    (IF HasCb(s, "data") THEN <<Item("data", e.data, e.op, e.t)>> ELSE <<>>) \o
                    (IF HasCb(s, "message") THEN <<Item("message", e.data, e.op, e.t)>> ELSE <<>>)], TRUE, "")
@@ -87,7 +88,7 @@ MSrv(s, e) ==
                           !.conns[k].appCloseFirst = s.appClose,
                           !.conns[k].closeFrame = [hasBody |-> e.hasBody, status |-> e.status, reason |-> e.reason],
                           !.stop = TRUE], TRUE, "")
-      [] e.kind \in {"eof", "reset", "bad", "badutf8"} ->
+      [] e.kind \in {"eof", "reset", "bad", "badutf8"} ->     \* (badutf8 with validation skipped: a message, above)
            MRes([s EXCEPT !.conns[k].ending = e.kind, !.conns[k].endT = e.t,
                           !.lossT = IF s.appClose THEN @ ELSE e.t, !.lossSeen = TRUE], TRUE, "")
       [] OTHER -> MRes(s, TRUE, "")
@@ -109,9 +110,15 @@ MDeliver(s, e) ==
   ELSE IF ~c.openSeen /\ (HasCb(s, "open") \/ (c.isRe /\ HasCb(s, "reconnect"))) THEN MFail(s, "C13.callback_before_on_open")
   ELSE IF c.pending = <<>> THEN MFail(s, "C13.delivered_something_the_server_did_not_send (duplicate?)")
   ELSE LET it == Head(c.pending) IN
-       IF it.kind # e.name THEN MFail(s, "C13.events_out_of_order_or_skipped")
+       IF it.kind # e.name THEN
+            \* recoverable: the skipped events are dropped from the expectation so the rest of the run is still judged
+            LET J == {j \in 1..Len(c.pending) : c.pending[j].kind = e.name /\ c.pending[j].data = e.arg.data} IN
+            IF J = {} THEN MFail(s, "C13.events_out_of_order_or_skipped")
+            ELSE LET j == CHOOSE j \in J : \A j2 \in J : j <= j2 IN
+                 MRes([s EXCEPT !.conns[k].pending = SubSeq(@, j + 1, Len(@)), !.lastCb = e.name], FALSE, "C13.events_out_of_order_or_skipped")
        ELSE IF it.data # e.arg.data THEN MFail(s, "C13.delivered_content_differs")
        ELSE IF e.name \in {"data", "message"} /\ e.arg.type # (IF it.op = 1 THEN "str" ELSE "bytes")
+               /\ ~(s.skipUtf8 /\ it.op = 1)      \* validation skipped: the code hands text over undecoded (deliberate, DESIGN 0a)
             THEN MFail(s, "C13.text_as_str_binary_as_bytes")
        ELSE IF e.name = "data" /\ e.dtype # it.op THEN MFail(s, "C13.on_data_type_is_not_text_or_binary")
        ELSE IF e.t # it.t THEN MFail(s, "C13.delivered_late (waited for further traffic)")
@@ -128,6 +135,9 @@ MError(s, e) ==
        THEN MRes([s EXCEPT !.cbErrorsExpected = @ - 1, !.lastCb = "error"], TRUE, "")   \* a user callback's own exception: reported, the run goes on
   ELSE IF s.appClose /\ (k < s.firstCid \/ s.conns[k].ending \in {"none", "close_frame"}) /\ ~(s.cbErrorsExpected > 0)
        THEN MFail(s, "C14.error_reported_for_a_run_ended_by_the_applications_close")
+  ELSE IF k >= 1 /\ s.conns[k].up /\ s.conns[k].ending = "none" /\ ~s.appClose /\ ~(s.cbErrorsExpected > 0) /\ ~s.kbint
+          /\ ~(IsPingTimeout(e) /\ s.T > 0)
+       THEN MFail(s, "C13.error_reported_on_a_connection_whose_peer_did_nothing_wrong")    \* (a legal message was refused)
   ELSE IF k >= 1 /\ IsPingTimeout(e) /\ s.T > 0 /\ s.conns[k].up THEN
        LET c == s.conns[k]
            responsive == \A i \in 1..Len(c.pings) : c.pings[i].lat >= 0 /\ c.pings[i].lat <= s.T
@@ -143,7 +153,7 @@ MClose(s, e) ==
   LET k == Cur(s)
       byFrame == k >= 1 /\ s.conns[k].ending = "close_frame" /\ s.conns[k].run = s.run
       cf == s.conns[k].closeFrame
-      exact == e.status = cf.status /\ e.reason.data = cf.reason /\ ~e.none
+      exact == e.status = cf.status /\ (e.reason.data = cf.reason \/ s.skipUtf8) /\ ~e.none
       none == e.none
   IN
   IF s.nclose > 0 THEN MFail(s, "C14.on_close_called_twice")
@@ -259,5 +269,7 @@ MStep0(s, e) ==
     [] e.ev = "quiesce" -> MQuiesce(s, e)
     [] OTHER -> MFail(s, "harness.unknown_event")
 
+\* clauses after which the monitor's state (r.s) is resynchronised and the rest of the trace is judged too
+Recoverable == {"C13.events_out_of_order_or_skipped"}
 MStep(s, e) == LET r == MStep0(s, e) IN IF r.ok THEN [r EXCEPT !.s.log = @ \o LogOf(e)] ELSE r
 =============================================================================
